@@ -731,8 +731,13 @@ def judge_round(ctx, inst, S):
     """default normal-form comparison; a different single rounding primitive on the same lane is
     refuted from the table of their values at 2.5 / -2.5 / 3.5 (rint: by rounding mode)"""
     import runner
+    import lanecheck
     from common import REFUTED, UNDECIDED
-    v, detail, rule, wit = runner.judge_default(ctx, inst, S)
+    lanecheck.NUMEQ[0] = True       # "return the same number as the C library function": +0 and -0 are the same number
+    try:
+        v, detail, rule, wit = runner.judge_default(ctx, inst, S)
+    finally:
+        lanecheck.NUMEQ[0] = False
     if v != UNDECIDED or S.ret is None:
         return v, detail, rule, wit
     eb = ctx.vt.eb
@@ -1085,13 +1090,15 @@ def fam_vdenom(vt, cfg):
         i = Inst(nm, VV, "V", body, lanewise2(lambda c, x, y, o=o: T.op(o, c.vt.eb, x, y)))
         i.env_ok = denom_env_ok(vt, "b")
         i.clause = "value"
-        i.budget_s = 3
+        i.budget_s = 1.0 if TIER == "quick" else 6
+        i.wrapper_only = nm.endswith("_op")     # tied to div() by body equality
         I.append(i)
     for nm, pre, o in (("vd_quo_assign", "a /= %s{b};" % D, q), ("vd_rem_assign", "a %%= %s{b};" % D, r)):
         i = Inst(nm, VV, "V", "a", lanewise2(lambda c, x, y, o=o: T.op(o, c.vt.eb, x, y)), pre=pre)
         i.env_ok = denom_env_ok(vt, "b")
         i.clause = "value"
-        i.budget_s = 3
+        i.budget_s = 1.0 if TIER == "quick" else 6
+        i.wrapper_only = True                   # tied to div() by body equality
         I.append(i)
     # broadcast from a scalar denominator: same results as the vector {d,d,...}
     AS = [("V", "a"), ("S", "d")]
@@ -1101,7 +1108,7 @@ def fam_vdenom(vt, cfg):
                  lambda c, o=o: c.pack([T.op(o, c.vt.eb, x, c.args["d"]) for x in c.lanes("a")]))
         i.env_ok = denom_env_ok(vt, "d")
         i.clause = "broadcast"
-        i.budget_s = 3
+        i.budget_s = 1.5 if TIER == "quick" else 6
         I.append(i)
     for nm, body in (("bcref_quot", "div(a, %s{V{d}}).quot" % D), ("bcref_rem", "div(a, %s{V{d}}).rem" % D)):
         i = Inst(nm, AS, "V", body, None)
